@@ -43,6 +43,25 @@ def run(tier, seed):
         jobs.append((("rnd", be), lambda be=be, c=rnd: bc.tlc_backend("C05_rnd_" + be, c, mode="gen", emit="EmitSim",
                                                                         simulate=20 if q else 600, depth=80, seed=seed,
                                                                         max_hist=200 if q else 6000, timeout=1500)))
+    # deep, narrow exhaustive corpora (1 fd): every history of
+    #  A: add/del/close/reopen/wait, 1 event, conditions {R, C}, depth 7 - contains "add wait del close reopen add wait"
+    #     on a genuinely new open file (changelist: MOD -> ENOENT -> ADD must re-register the condition)
+    #  B: add/del/wait, 2 events, conditions {R, W, C}, depth 6 (poll: 7) - contains "add(R|W) add(C) wait del wait [del wait]"
+    #     (the fd must stay in the poll set with POLLRDHUP; later del returns 0) and "add(R,ET) add(W,ET) wait del wait"
+    #     (the survivor stays edge-triggered)
+    deep = {}
+    for be in bc.BACKENDS:
+        if q:   # quick: only where the fallbacks / the array / the ET flag of the changelist are at stake
+            if be == "epollcl":
+                deep[("deepA", be)] = bc.consts(be, 7, nfd=1, nev=1, masks=(1, 4), ets=(0,), acts=("add", "del", "close", "wait"))
+                deep[("deepB", be)] = bc.consts(be, 6, nfd=1, nev=2, masks=(1, 2, 4), ets=(1,), acts=("add", "del", "wait"))
+            if be == "poll":
+                deep[("deepB", be)] = bc.consts(be, 7, nfd=1, nev=2, masks=(1, 4), acts=("add", "del", "wait"))
+        else:
+            deep[("deepA", be)] = bc.consts(be, 7, nfd=1, nev=1, masks=(1, 4), acts=("add", "del", "close", "wait"))
+            deep[("deepB", be)] = bc.consts(be, 7, nfd=1, nev=2, masks=(1, 2, 4), acts=("add", "del", "wait"))
+    for (kind, be), c in deep.items():
+        jobs.append(((kind, be), lambda kind=kind, be=be, c=c: bc.tlc_backend("C05_%s_%s" % (kind, be), c, mode="gen", timeout=1500)))
     # the model of the code exhibits the open finding when its trigger is not excluded (thorough tier)
     wit = bc.consts("epollcl", 5, nev=2, masks=(1, 2), avoid=False)
     if not q:
@@ -56,7 +75,8 @@ def run(tier, seed):
             res, _ = results[("mc", be)]
             chk.add_tlc("C05_mc_" + be, res)
             bc.check_taken(chk, res, ACTIONS, "C05_mc_" + be)
-        for kind, c in (("exh", ex), ("rnd", rnd)):
+        kinds = [("exh", ex), ("rnd", rnd)] + [(k, c) for (k, b), c in deep.items() if b == be]
+        for kind, c in kinds:
             res, hs = results[(kind, be)]
             name = "C05_%s_%s" % (kind, be)
             chk.add_tlc(name, res)
@@ -74,6 +94,20 @@ def run(tier, seed):
                         "predicted_last_wait": hs[len(hs) // 2][-1]["o"]}, limit=6)
             variants = [(0, 0)] if q else [(0, 0), (1, 1), (0, 2)]
             bc.replay_c05(chk, exe, hs, c, label=name, variants=variants)
+    # the directed shapes must be present (vacuity guard)
+    def shape(h):
+        return [x["a"] for x in h]
+    for be in (("epollcl",) if q else ("epoll", "epollcl")):
+        hsA = results[("deepA", be)][1]
+        if not any(shape(h) == ["add", "wait", "del", "close", "reopen", "add", "wait"] and h[0]["m"] == h[5]["m"] for h in hsA):
+            raise vkit.InfraError("deepA corpus of %s lacks add-wait-del-close-reopen-add-wait" % be)
+        hsB = results[("deepB", be)][1]
+        if not any(shape(h)[:5] == ["add", "add", "wait", "del", "wait"] and h[0]["et"] and h[1]["et"] and h[0]["m"] != h[1]["m"]
+                   for h in hsB):
+            raise vkit.InfraError("deepB corpus of %s lacks two ET events / del one / wait" % be)
+    if not any(shape(h) == ["add", "add", "wait", "del", "wait", "del", "wait"] and h[0]["m"] in (1, 2) and h[1]["m"] == 4 and h[0]["fd"] == h[1]["fd"]
+               and h[3]["e"] == 1 for h in results[("deepB", "poll")][1]):
+        raise vkit.InfraError("deepB corpus of poll lacks add(R|W) add(C) wait del wait del wait")
     missing = [o for o in ("add", "del", "close", "reopen", "reinit", "wait", "add:et", "add:closed") if not ops.get(o)]
     if missing:
         raise vkit.InfraError("vacuous scenario corpus: ops never generated: %s" % missing)
